@@ -1,5 +1,7 @@
 //! sci-monitor: API-boundary runtime monitors for stats-ci (one subcommand per property).
 mod api;
+#[macro_use]
+mod lazy;
 mod model;
 mod props;
 
